@@ -15,7 +15,8 @@ CLAIMED = {
             '(return, fall-through, propagating exception at any statement) the working-precision '
             'cell is proved equal to its entry value, by abstract interpretation over all paths with '
             'callee summaries; plus structural rules on the _wrap_specfun wrappers, the context '
-            'managers / two-phase rule protocols and the prec/dps setters.  Quantifies over all '
+            'managers / two-phase rule protocols (incl. one manager object per activation, so nested or '
+            'recursive use cannot overwrite the saved precision) and the prec/dps setters.  Quantifies over all '
             'inputs and crash points at statement granularity, which tests cannot.',
             'Assumes user callbacks leave the precision as found; restoring stores are atomic; calls '
             'are resolved by name through the context registries and class methods (unresolved calls '
@@ -150,7 +151,9 @@ CLAIMED = {
             'class the rule that makes stale reuse impossible is checked on the source: hits are '
             'control-dependent on stored-precision >= requested (and shifted by exactly the '
             'difference), or the precision is in the key, or the table is exact / a pure function '
-            'of its key; constant_memo stores value before tag; every mutator of a matrix drops its '
+            'of its key; what is stored under a precision key was computed at that precision and not in the '
+            'caller\'s rounding mode; the odefun segment cache is append-only with an in-range lookup; '
+            'constant_memo stores value before tag; every mutator of a matrix drops its '
             'cached LU and the LU cache carries a precision tag; nothing computed through a context '
             'is stored in containers shared between contexts; memoize keys include keyword values.  '
             'This decides the "never reused at lower accuracy / after inputs changed / across '
@@ -323,7 +326,8 @@ CLAIMED = {
             'are not source): every name bound differently per backend is enumerated and must be classified; '
             'alternatives in source agree on signature; python_mpf_mul/gmpy_mpf_mul and the _int pair have '
             'the same rounding contract (one rounding at the requested precision in the caller\'s mode of the '
-            'exact product, same special constants, normaliser reached only with a non-zero mantissa); '
+            'exact product, same special constants, early-return cases tried in the same order, normaliser '
+            'reached only with a non-zero mantissa); '
             'dispatched names are bound on every branch to the alternative written for that backend and '
             'derived tables are built through the dispatching names; the tie masks and bit-count tables '
             'the C normaliser never consults agree with each other and with the thresholds guarding them.  '
